@@ -1115,7 +1115,8 @@ class SVG:
         height = float(svg.attrib.get("height", parent_height))
 
         viewport = viewbox = Rect(x, y, width, height)
-        if "viewBox" in svg.attrib:
+        has_viewbox = "viewBox" in svg.attrib
+        if has_viewbox:
             viewbox = parse_view_box(svg.attrib["viewBox"])
 
         # first recurse to un-nest any nested nested SVGs
@@ -1127,7 +1128,9 @@ class SVG:
         g = etree.Element(f"{{{svgns()}}}g")
         g.extend(svg)
 
-        if viewport != viewbox:
+        # without a viewBox the content is just offset by x,y; a viewBox is mapped
+        # onto the viewport even if the two happen to be numerically equal
+        if has_viewbox:
             preserve_aspect_ratio = svg.attrib.get("preserveAspectRatio", "xMidYMid")
             transform = Affine2D.rect_to_rect(viewbox, viewport, preserve_aspect_ratio)
         else:
